@@ -56,9 +56,9 @@ func TestVerifC18(t *testing.T) {
 	r := vlib.Start(prop, vPart("mon"))
 	defer r.Finish()
 	rr := r.Rand("c18", prop, r.Part)
-	n := r.Pick(500, 60000)
+	n := r.Pick(500, 300000)
 	if r.Part == "race" {
-		n = r.Pick(100, 1000)
+		n = r.Pick(100, 4000)
 	}
 	invalidRate := 0
 	if prop == "C09" {
